@@ -7,8 +7,10 @@ pub type Res = (u8, u64);
 pub const NTY: u8 = 6;
 pub const NDY: u64 = 4;
 
-/// declared data of the four batch-controller types the harness provides: (reads, writes)
-pub const CTL: [(&[Res], &[Res]); 4] = [(&[], &[]), (&[(0, 0)], &[]), (&[], &[(1, 0)]), (&[(2, 0)], &[(0, 0)])];
+/// declared data of the six batch-controller types the harness provides: (reads, writes)
+pub const CTL: [(&[Res], &[Res]); 6] = [(&[], &[]), (&[(0, 0)], &[]), (&[], &[(1, 0)]), (&[(2, 0)], &[(0, 0)]), (&[(3, 0)], &[]), (&[], &[(4, 0)])];
+/// resources a controller's data creates in `setup` (DefaultProvider members only)
+pub const CTL_CREATES: [&[Res]; 6] = [&[], &[(0, 0)], &[(1, 0)], &[(2, 0), (0, 0)], &[], &[]];
 
 #[derive(Clone, Debug, PartialEq)]
 pub enum Op {
@@ -88,7 +90,7 @@ impl Op {
                         tag: tag.parse().unwrap_or(0),
                         name: unhex(name),
                         deps: parse_hexl(deps),
-                        ctl: ctl.parse::<usize>().unwrap_or(0) % 4,
+                        ctl: ctl.parse::<usize>().unwrap_or(0) % 6,
                         t: t.parse().unwrap_or(5),
                         n: n.parse().unwrap_or(1),
                         inner,
@@ -340,7 +342,7 @@ impl Gen {
                 let mut inner_names = vec![];
                 let inner = self.ops(kk, depth + 1, &mut inner_names);
                 let nn = self.rng.below(self.cfg.max_batch_n + 1) as usize;
-                v.push(Op::Batch { tag, name: name.clone(), deps, ctl: self.rng.below(4) as usize, t, n: nn, inner });
+                v.push(Op::Batch { tag, name: name.clone(), deps, ctl: self.rng.below(6) as usize, t, n: nn, inner });
             } else if self.cfg.funnel {
                 // one long system opens a stage; the rest are short and mostly conflict with one group
                 let (r, w, t) = if k % 9 == 0 {
